@@ -181,8 +181,15 @@ func (e *LinEnv) Eval(v ssa.Value) *Lin {
 					return e.Eval(st[0])
 				}
 			}
+			if fa, ok := x.X.(*ssa.FieldAddr); ok {
+				if a, ok := fa.X.(*ssa.Alloc); ok {
+					return e.fieldOfLocal(a, fa.Field)
+				}
+			}
 		}
 		return nil
+	case *ssa.Field:
+		return e.fieldOf(x.X, x.Field, 0)
 	case *ssa.Phi:
 		// a phi whose incoming values all evaluate to the same form
 		var first *Lin
@@ -198,6 +205,90 @@ func (e *LinEnv) Eval(v ssa.Value) *Lin {
 			}
 		}
 		return first
+	}
+	return nil
+}
+
+// fieldOfLocal evaluates field idx of a local struct cell: all stores to that field must evaluate to the same form.
+func (e *LinEnv) fieldOfLocal(a *ssa.Alloc, idx int) *Lin {
+	var first *Lin
+	refs := a.Referrers()
+	if refs == nil {
+		return nil
+	}
+	n := 0
+	for _, rf := range *refs {
+		fa, ok := rf.(*ssa.FieldAddr)
+		if !ok || fa.Field != idx {
+			continue
+		}
+		for _, sv := range allocStores(fa) {
+			n++
+			l := e.Eval(sv)
+			if l == nil {
+				return nil
+			}
+			if first == nil {
+				first = l
+			} else if first.String() != l.String() {
+				return nil
+			}
+		}
+	}
+	// whole-struct stores (p := someStruct) are not followed
+	if n == 0 {
+		for _, sv := range allocStores(a) {
+			return e.fieldOf(sv, idx, 1)
+		}
+	}
+	return first
+}
+
+// fieldOf evaluates field idx of a struct value: a load of a local cell, the result of a module call, or a parameter.
+func (e *LinEnv) fieldOf(base ssa.Value, idx int, d int) *Lin {
+	if d > 8 {
+		return nil
+	}
+	base = strip(base)
+	switch b := base.(type) {
+	case *ssa.UnOp:
+		if b.Op == token.MUL {
+			if a, ok := b.X.(*ssa.Alloc); ok {
+				return e.fieldOfLocal(a, idx)
+			}
+		}
+	case *ssa.Call:
+		if f := b.Call.StaticCallee(); f != nil && inModule(f) {
+			rets := returnsOf(f)
+			if len(rets) == 1 && len(rets[0].Results) == 1 {
+				child := &Ctx{Parent: e.Ctx, Site: b, Fn: f}
+				if e.Ctx == nil {
+					child.Parent = &Ctx{Fn: b.Parent()}
+				}
+				return e.inCtx(child).fieldOf(rets[0].Results[0], idx, d+1)
+			}
+		}
+	case *ssa.Extract:
+		if c, ok := b.Tuple.(*ssa.Call); ok {
+			if f := c.Call.StaticCallee(); f != nil && inModule(f) {
+				rets := returnsOf(f)
+				if len(rets) == 1 && b.Index < len(rets[0].Results) {
+					child := &Ctx{Parent: e.Ctx, Site: c, Fn: f}
+					if e.Ctx == nil {
+						child.Parent = &Ctx{Fn: c.Parent()}
+					}
+					return e.inCtx(child).fieldOf(rets[0].Results[b.Index], idx, d+1)
+				}
+			}
+		}
+	case *ssa.Parameter:
+		if e.Ctx != nil && e.Ctx.Parent != nil && e.Ctx.Site != nil && e.Ctx.Fn == b.Parent() {
+			cc := callOf(e.Ctx.Site)
+			pi := paramIndex(b)
+			if !cc.IsInvoke() && pi >= 0 && pi < len(cc.Args) {
+				return e.inCtx(e.Ctx.Parent).fieldOf(cc.Args[pi], idx, d+1)
+			}
+		}
 	}
 	return nil
 }
